@@ -19,7 +19,8 @@ structure Inv (cfg : Cfg) (s : St) : Prop where
   everything in the map is still to be looked at -/
   remMap : ∀ rem ai, s.sd = .sweeping rem ai → rem.Nodup ∧ ∀ c ∈ rem, (s.conns c).inMap = true
   sweep : ∀ rem ai, s.sd = .sweeping rem ai → ai = true → ∀ c ∈ s.ids, (s.conns c).inMap = true → c ∈ rem
-  retOk : s.sd = .returned .ok → ∀ c, (s.conns c).inMap = false
+  /-- a Shutdown that returned without giving up (nil, or the listener error of a repeated call) has swept everything -/
+  retOk : ∀ r, s.sd = .returned r → r ≠ .ctxErr → ∀ c, (s.conns c).inMap = false
   lis : s.isShutdown = true → s.listenerSet = true → s.listenerOpen = false
   lisC : s.listenerOpen = false → s.isShutdown = true ∨ s.ctxCancelled = true ∨ ∃ r, s.acc = .returned r
   accRet : ∀ r, s.acc = .returned r → r = .closed
@@ -37,7 +38,7 @@ theorem inv_init (cfg : Cfg) : Inv cfg init where
   shut := by simp [init]
   remMap := by intro rem ai h; simp [init] at h
   sweep := by intro rem ai h; simp [init] at h
-  retOk := by intro h; simp [init] at h
+  retOk := by intro r h; simp [init] at h
   lis := by intro h; simp [init] at h
   lisC := by intro h; simp [init] at h
   accRet := by intro r h; simp [init] at h
@@ -126,14 +127,14 @@ theorem inv_conn_upd (cfg : Cfg) (s : St) (c : Nat) (v : Conn) (δ : Int) (h : I
     rcases hI d hm with h1 | h1
     · exact h.sweep rem ai hs ha d hd h1
     · rw [show s.sd = .sweeping rem ai from hs] at h1; cases h1
-  · intro hs d
-    have := h.retOk hs d
+  · intro r hs hr d
+    have := h.retOk r hs hr d
     cases hm : ((s.setC c v).conns d).inMap with
     | false => rfl
     | true =>
       rcases hI d hm with h1 | h1
       · rw [h1] at this; cases this
-      · rw [show s.sd = .returned .ok from hs] at h1; cases h1
+      · rw [show s.sd = .returned r from hs] at h1; cases h1
   · exact h.lis
   · exact h.lisC
   · exact h.accRet
@@ -180,7 +181,7 @@ theorem inv_globals (cfg : Cfg) (s s' : St) (h : Inv cfg s)
     (hshut : s'.isShutdown = true ↔ s'.sd ≠ .notCalled)
     (hrem : ∀ rem ai, s'.sd = .sweeping rem ai → rem.Nodup ∧ ∀ c ∈ rem, (s.conns c).inMap = true)
     (hsweep : ∀ rem ai, s'.sd = .sweeping rem ai → ai = true → ∀ c ∈ s.ids, (s.conns c).inMap = true → c ∈ rem)
-    (hret : s'.sd = .returned .ok → ∀ c, (s.conns c).inMap = false)
+    (hret : ∀ r, s'.sd = .returned r → r ≠ .ctxErr → ∀ c, (s.conns c).inMap = false)
     (hlis : s'.isShutdown = true → s'.listenerSet = true → s'.listenerOpen = false)
     (hlisC : s'.listenerOpen = false → s'.isShutdown = true ∨ s'.ctxCancelled = true ∨ ∃ r, s'.acc = .returned r)
     (hret2 : ∀ r, s'.acc = .returned r → r = .closed) : Inv cfg s' := by
@@ -199,7 +200,7 @@ theorem inv_globals (cfg : Cfg) (s s' : St) (h : Inv cfg s)
   · exact hshut
   · intro rem ai hs; rw [e1]; exact hrem rem ai hs
   · intro rem ai hs hai; rw [e1, e2]; exact hsweep rem ai hs hai
-  · intro hs; rw [e1]; exact hret hs
+  · intro r hs hr; rw [e1]; exact hret r hs hr
   · exact hlis
   · exact hlisC
   · exact hret2
